@@ -118,7 +118,20 @@ def enum_types(rng):
         ("Dup", {"X": 1, "Y": 1, "Z": 2}),
         ("Mixed", {"T": True, "ONE": 1, "F": 1.0, "S": "1"}),
     ]
-    return [(n, GraphQLEnumType(n, v), v) for n, v in defs]
+    out = [(n, GraphQLEnumType(n, v), v) for n, v in defs]
+    # enum types defined by a Python Enum class, in the three ways the library offers (values / names / members as internal values)
+    out.append(("ClsValues", GraphQLEnumType("ClsValues", PyColor), {m.name: m.value for m in PyColor}))
+    out.append(("ClsNames", GraphQLEnumType("ClsNames", PyColor, names_as_values=True), {m.name: m.name for m in PyColor}))
+    out.append(("ClsMembers", GraphQLEnumType("ClsMembers", PyColor, names_as_values=None), {m.name: m for m in PyColor}))
+    out.append(("ClsInt", GraphQLEnumType("ClsInt", PyIntColor), {m.name: m.value for m in PyIntColor}))
+    return out
+
+
+import enum as _enum     # noqa: E402
+PyColor = _enum.Enum("PyColor", {"RED": 0, "GREEN": 1, "BLUE": 2})
+PyShade = _enum.Enum("PyShade", {"RED": 7, "PURPLE": 3, "GREEN": 1})        # another class: same names, other values / other names
+PyIntColor = _enum.IntEnum("PyIntColor", {"RED": 0, "GREEN": 1})
+FOREIGN = [PyShade.RED, PyShade.PURPLE, PyShade.GREEN, PyColor.RED, PyColor.BLUE, PyIntColor.RED, PyIntColor.GREEN]
 
 
 def record(tname, names, vin, ser, parse):
@@ -157,7 +170,7 @@ def run(tier: str, rd):
             recs.append(rec)
     for ename, et, mapping in enum_types(rng):
         names = list(mapping)
-        for v in list(mapping.values()) + vals[:60] + [[1, 2], {"k": 1}, (1, 2)]:
+        for v in list(mapping.values()) + vals[:60] + [[1, 2], {"k": 1}, (1, 2)] + FOREIGN:
             rec, out = record("Enum", names, v, et.serialize, et.parse_value)
             if not rec["err"] and not rec["backErr"]:
                 back = rec.get("_back")
@@ -176,7 +189,7 @@ def run(tier: str, rd):
         fields["e" + ename] = GraphQLField(et)
     schema = GraphQLSchema(GraphQLObjectType("Query", fields))
     doc = parse("{ " + " ".join(fields) + " }")
-    for v in vals:
+    for v in vals + FOREIGN:
         try:
             res = execute_sync(schema, doc, {f: v for f in fields})
         except Exception as e:  # noqa: BLE001
